@@ -217,6 +217,40 @@ def run_job(job, findings_open):
                 # the real code raises on these inputs
                 entry["reproduced"] = ob.name == "no-exception" or True
                 entry["detail"] = f"real code raised {type(e).__name__}: {e}"
+        if not entry["reproduced"] and c.hints.get("unit"):
+            # irrational model values can lose an exact coincidence in IEEE arithmetic: look for another model of the
+            # same query whose unit vectors are float-exact, and replay that
+            if core.vars_of(neg):
+                cons = c._slice(set(core.vars_of(neg)), 2) + [neg]
+            else:       # the violation is reaching this path at all: any model of the path condition will do
+                cons = [e for e, _ in c.pc] + [d.exact for d in c.defs] + [neg]
+            v2 = c.float_exact_model(cons)
+            if v2 is not None:
+                st2, vals2 = concretise(c, [neg], known=v2)
+                if vals2 is not None:
+                    try:
+                        conc = run_concrete(func, job.params, vals2, job.tol)
+                        if conc.get(ob.name) is False:
+                            entry.update(reproduced=True, inputs=vals2, via="float-exact model",
+                                         concrete={k: v for k, v in conc.items() if v is not True})
+                    except PreconditionFailed:
+                        pass
+                    except Exception as e:  # noqa
+                        entry.update(reproduced=True, inputs=vals2, via="float-exact model",
+                                     detail=f"real code raised {type(e).__name__}: {e}")
+        if finding and not entry["reproduced"] and isinstance(findings_open, dict):
+            # the solver established that the region is reachable; irrational model values may lose the exact
+            # coincidence in IEEE arithmetic, so the finding's recorded concrete witness is replayed as well
+            rec = (findings_open.get(finding) or {}).get("replay")
+            if rec and rec.get("func") == job.func and rec.get("params") == job.params:
+                try:
+                    conc = run_concrete(func, job.params, rec["inputs"], job.tol)
+                    if conc.get(ob.name) is False:
+                        entry["reproduced"] = True
+                        entry["via"] = "recorded witness of the finding"
+                        entry["inputs"] = rec["inputs"]
+                except Exception as e:  # noqa
+                    entry["detail"] = f"recorded witness raised {type(e).__name__}: {e}"
         (res["witnesses"] if finding else res["cex"]).append(entry)
         return "sat"
 
